@@ -23,6 +23,7 @@ CONSTANTS
   ParseMemoAliased = FALSE
   CommaSeparates = FALSE
   RejectDrops = FALSE
+  MayAcceptedSplits = FALSE
   RejAt = {0, 1, 2}
   RejThen = 2
   RejEditAt = {0, 1, 2}
